@@ -380,6 +380,7 @@ func c19LockForms(c *runCtx, gb, tmpl string, id entity.Id) {
 		cmd.SysProcAttr = &syscall.SysProcAttr{Credential: &syscall.Credential{Uid: 65534, Gid: 65534}}
 	}
 	canRunAsNobody := false
+	gbNobody := gb
 	if os.Geteuid() == 0 {
 		// (the binary and the scratch directory have to be reachable by that user: not so when the
 		// framework itself lives under a private directory)
@@ -388,6 +389,19 @@ func c19LockForms(c *runCtx, gb, tmpl string, id entity.Id) {
 		probe.Dir = scratchRoot
 		asNobody(probe)
 		canRunAsNobody = probe.Run() == nil
+		if !canRunAsNobody {
+			// a copy of the binary in the scratch directory, which that user can reach
+			cp := filepath.Join(scratchRoot, "git-bug-for-nobody")
+			if data, err := os.ReadFile(gb); err == nil && os.WriteFile(cp, data, 0o755) == nil {
+				probe := exec.Command(cp, "version")
+				probe.Dir = scratchRoot
+				asNobody(probe)
+				if probe.Run() == nil {
+					canRunAsNobody = true
+					gbNobody = cp
+				}
+			}
+		}
 	}
 	if canRunAsNobody {
 		dir := copyDir(tmpl)
@@ -403,7 +417,7 @@ func c19LockForms(c *runCtx, gb, tmpl string, id entity.Id) {
 			for try := 0; try < 6; try++ {
 				time.Sleep(150 * time.Millisecond)
 				exec.Command("chmod", "-R", "a+rwX", dir).Run()
-				cmd := exec.Command(gb, "bug")
+				cmd := exec.Command(gbNobody, "bug")
 				cmd.Dir = dir
 				cmd.Env = gbEnv(dir)
 				asNobody(cmd)
